@@ -1068,3 +1068,132 @@ func init() {
 		return res
 	}
 }
+
+// ---------------------------------------------------------------------------------------------
+// C04: a chain of parameter, response or path-item references that runs INTO a cycle it is not part of (a -> b -> c -> c,
+// a -> b -> c -> d -> c): the element expanded first is not on the cycle, so the cycle closes on a reference other than the
+// first one followed
+
+type tailCycleInput struct {
+	Kind  string `json:"kind"`  // parameter | response | pathitem
+	Cycle int    `json:"cycle"` // length of the cycle the tail runs into (1 or 2)
+	Cross bool   `json:"cross"` // the cycle lies in another document
+}
+
+func tailCycleGraph(in tailCycleInput) *exGraph {
+	type m = map[string]interface{}
+	root, other := "file:///t/root.json", "file:///t/sub/other.json"
+	sec := map[string]string{"parameter": "parameters", "response": "responses", "pathitem": "paths"}[in.Kind]
+	name := func(s string) string {
+		if in.Kind == "pathitem" {
+			return "/" + s
+		}
+		return s
+	}
+	ref := func(doc, s string) m {
+		return m{"$ref": doc + "#/" + sec + "/" + strings.ReplaceAll(name(s), "/", "~1")}
+	}
+	r := m{"swagger": "2.0", "info": m{"title": "t", "version": "1"}, "paths": m{}}
+	o := m{"swagger": "2.0", "info": m{"title": "o", "version": "1"}, "paths": m{}}
+	rs, os := m{}, m{}
+	cdoc, cm := "", rs
+	if in.Cross {
+		cdoc, cm = "sub/other.json", os
+	}
+	back := ""
+	if in.Cross {
+		back = "" // references inside the other document are local to it
+	}
+	rs[name("a")] = ref("", "b")
+	rs[name("b")] = ref(cdoc, "c")
+	if in.Cycle == 1 {
+		cm[name("c")] = ref(back, "c")
+	} else {
+		cm[name("c")] = ref(back, "d")
+		cm[name("d")] = ref(back, "c")
+	}
+	if in.Kind == "pathitem" {
+		r["paths"], o["paths"] = rs, os
+	} else {
+		r[sec], o[sec] = rs, os
+		use := m{"get": m{"responses": m{"200": m{"description": "ok"}}}}
+		if in.Kind == "parameter" {
+			use["parameters"] = []interface{}{ref("", "a")} // path level: a list, visited in order
+		} else {
+			use["get"].(m)["responses"].(m)["default"] = ref("", "a")
+		}
+		r["paths"] = m{"/use": use}
+	}
+	return exFromGeneric(m{root: r, other: o}, root)
+}
+
+func checkTailCycle(in tailCycleInput) string {
+	g := tailCycleGraph(in)
+	for _, o := range []exOpts{{}, {Cont: true}, {Skip: true}, {Skip: true, Cont: true}} {
+		for rep := 0; rep < 4; rep++ { // the sections are maps: which element is expanded first varies from run to run
+			res := exWorkerRun(g.call("expand_spec", o))
+			if res.Timeout {
+				return fmt.Sprintf("ExpandSpec (%+v) does not return within the time limit on a chain of %s references that runs into a cycle", o, in.Kind)
+			}
+			if res.Panic != "" {
+				return fmt.Sprintf("ExpandSpec (%+v) crashes on a chain of %s references that runs into a cycle: %.200s", o, in.Kind, res.Panic)
+			}
+		}
+	}
+	if in.Kind != "pathitem" {
+		op := map[string]string{"parameter": "expand_param", "response": "expand_response"}[in.Kind]
+		c := g.call(op, exOpts{})
+		c.Element, _ = json.Marshal(map[string]string{"$ref": "#/" + map[string]string{"parameter": "parameters", "response": "responses"}[in.Kind] + "/a"})
+		for _, e := range []string{"with_root_generic", "with_root_typed"} {
+			c.Entry = e
+			res := exWorkerRun(c)
+			if res.Timeout || res.Panic != "" {
+				return fmt.Sprintf("%s with a root value (%s) does not return (or crashes) on a chain that runs into a cycle: %.200s", op, e, res.Panic)
+			}
+		}
+	}
+	return ""
+}
+
+func oracleC04Tail(r *rng, n int, tier string) *oracleResult {
+	exQuiet()
+	res := &oracleResult{Stats: map[string]int{}}
+	fails := 0
+	for _, k := range []string{"parameter", "response", "pathitem"} {
+		for _, cyc := range []int{1, 2} {
+			for _, cross := range []bool{false, true} {
+				if fails >= 2 {
+					res.Stats["not-examined-after-two-failures"]++
+					continue
+				}
+				in := tailCycleInput{Kind: k, Cycle: cyc, Cross: cross}
+				res.Evaluations += 17
+				res.Distinct++
+				if msg := checkTailCycle(in); msg != "" {
+					fails++
+					res.Stats["fail:tail-into-cycle"]++
+					if fails <= 1 {
+						res.Failures = append(res.Failures, failure{Property: "C04", What: msg, Shape: "tail-into-element-cycle", Input: in})
+					}
+				}
+			}
+		}
+	}
+	res.Samples = []interface{}{tailCycleInput{Kind: "parameter", Cycle: 1}}
+	return res
+}
+
+func init() {
+	oracles["C04tail"] = oracleC04Tail
+	replays["C04tail"] = func(input json.RawMessage) *oracleResult {
+		var in tailCycleInput
+		res := &oracleResult{Stats: map[string]int{}, Evaluations: 1}
+		if json.Unmarshal(input, &in) != nil {
+			return res
+		}
+		if msg := checkTailCycle(in); msg != "" {
+			res.Failures = append(res.Failures, failure{Property: "C04", What: msg, Shape: "tail-into-element-cycle", Input: in})
+		}
+		return res
+	}
+}
